@@ -281,8 +281,34 @@ pub fn realise_type(g: &Graph, salt: u64, arrays: bool) -> (String, Vec<(usize, 
     for &i in g.order(salt ^ 0x55).iter() {
         s.push_str("TYPE\n");
         if outdeg[i] == 0 {
-            s.push_str(&format!("t{} : (v{}a, v{}b);\n", i, i, i));
+            // (a third of the enumerations with a default value)
+            let dflt = if mix(salt ^ (i as u64 * 911)) % 3 == 0 { format!(" := v{}a", i) } else { String::new() };
+            s.push_str(&format!("t{} : (v{}a, v{}b){};\n", i, i, i, dflt));
         } else if outdeg[i] == 1 && alias[i] {
+            let j = (0..g.n).find(|&j| g.adj[i][j]).unwrap();
+            // half of the aliases of enumerations carry an initial value (`t1 : t2 := v;` is an
+            // enumeration declaration from the start, `t1 : t2;` is resolved late): a value of the
+            // enumeration at the end of the alias chain - of t0 when the chain is a cycle
+            let dflt = if mix(salt ^ (i as u64 * 523)) % 2 == 0 {
+                let mut cur = j;
+                let mut root = None;
+                for _ in 0..=g.n {
+                    if outdeg[cur] == 0 {
+                        root = Some(cur);
+                        break;
+                    }
+                    match (0..g.n).find(|&k| g.adj[cur][k]) {
+                        Some(k) if outdeg[cur] == 1 => cur = k,
+                        _ => break,
+                    }
+                }
+                format!(" := v{}a", root.unwrap_or(0))
+            } else {
+                String::new()
+            };
+            s.push_str(&format!("t{} : {}{};\n", i, recase(&format!("t{}", j), salt ^ (i * 31 + j) as u64), dflt));
+        } else if outdeg[i] == 1 && mix(salt ^ (i as u64 * 389)) % 3 == 0 {
+            // an alias of a type that is no enumeration (a structure, an array, another such alias)
             let j = (0..g.n).find(|&j| g.adj[i][j]).unwrap();
             s.push_str(&format!("t{} : {};\n", i, recase(&format!("t{}", j), salt ^ (i * 31 + j) as u64)));
         } else if outdeg[i] == 1 && arrays && mix(salt ^ (i as u64 * 77)) % 4 == 0 {
